@@ -64,6 +64,14 @@ CHECKS["C14"] = dict(
     technique="CrossHair+z3 solver-partitioned exhaustive fan over (mutator, index, cache state), inductive cold-or-coherent invariant",
     design="§4 C14")
 
+CHECKS["C18"] = dict(
+    text="Bounded symbolic execution of the real cli.main (--inject with every flag combination, plain and --trace decompilation) on "
+         "stacks of n<=3 pickles read from a pure-Python stdin: every pickle's payload byte is a solver variable, so 'all but the k-th "
+         "are byte-identical' is Confirmed for all contents; target k ranges over 0..n including one past the end; decompiled output is "
+         "parsed, checked for variable reuse across pickles and executed against inert stubs vs the reference VM.",
+    technique="CrossHair+z3 over symbolic payload bytes through cli.main; pinned n/target/flags; native replay",
+    design="§4 C18")
+
 NOT_APPLICABLE = {
     "C16": "every observable sits behind zipfile/zlib/torch C-level I/O; symbolic inputs are realised at the first call so the solver has nothing to decide (DESIGN §5); the pickle-level half is covered by C08",
 }
